@@ -936,6 +936,24 @@ def evaluate(t, env, memo=None):
             r = bool(evaluate(t.args[0], env, memo))
         elif op == "len":
             r = len(evaluate(t.args[0], env, memo))
+        elif op in ("concat", "fmt"):
+            r = "".join(str(evaluate(a, env, memo)) for a in t.args)
+        elif op == "fv":
+            v = evaluate(t.args[0], env, memo)
+            conv = evaluate(t.args[2], env, memo)
+            if conv == "r":
+                v = repr(v)
+            elif conv == "s":
+                v = str(v)
+            r = format(v, evaluate(t.args[1], env, memo))
+        elif op == "str":
+            r = str(evaluate(t.args[0], env, memo))
+        elif op == "hex":
+            r = hex(evaluate(t.args[0], env, memo))
+        elif op == "chr":
+            r = chr(evaluate(t.args[0], env, memo))
+        elif op == "int" and len(t.args) == 1:
+            r = int(evaluate(t.args[0], env, memo))
         else:
             raise CannotEval(repr(t)[:120])
     else:
